@@ -5,6 +5,7 @@ drives are implemented) give the same result for every command.
 Used by `Beeb.Props.C05b`.
 -/
 import Beeb.Model.Main
+import Beeb.Lemmas.FsL
 
 namespace Beeb.SameCmdL
 open Beeb
@@ -14,11 +15,12 @@ def SameDrive (e1 e2 : Env) (c1 c2 : DriveCfg) : Prop :=
   e1.driveMedia c1 = e2.driveMedia c2 ∧ c1.view.geom = c2.view.geom ∧ c1.fmt = c2.fmt
 
 /-- the two environments have the same drive numbers attached, in the same
-    order, each presenting the same device; everything else is equal -/
+    order, each presenting the same device; everything else (including the names
+    of the image files, which the extract commands refuse to write over) is equal -/
 def SameDrives (e1 e2 : Env) : Prop :=
   e1.storage.drives.map (·.1) = e2.storage.drives.map (·.1) ∧
   (∀ n c1 c2, e1.storage.lookup n = some c1 → e2.storage.lookup n = some c2 → SameDrive e1 e2 c1 c2) ∧
-  e1.ctx = e2.ctx ∧ e1.ndebug = e2.ndebug ∧ e1.screenCols = e2.screenCols
+  e1.ctx = e2.ctx ∧ e1.ndebug = e2.ndebug ∧ e1.screenCols = e2.screenCols ∧ e1.images = e2.images
 
 /-! ### the drive table -/
 
@@ -151,7 +153,7 @@ theorem info_same (e1 e2 : Env) (h : SameDrives e1 e2) (args : List Bytes) :
 theorem cat_same (e1 e2 : Env) (h : SameDrives e1 e2) (args : List Bytes) :
     cmdCat e1 args = cmdCat e2 args := by
   unfold cmdCat
-  simp only [mount_same e1 e2 h, h.2.2.1, h.2.2.2.2]
+  simp only [mount_same e1 e2 h, h.2.2.1, h.2.2.2.2.1]
 
 theorem free_same (e1 e2 : Env) (h : SameDrives e1 e2) (args : List Bytes) :
     cmdFree e1 args = cmdFree e2 args := by
@@ -216,6 +218,7 @@ theorem sectorMap_same (e1 e2 : Env) (h : SameDrives e1 e2) (args : List Bytes) 
 theorem extractUnused_same (e1 e2 : Env) (h : SameDrives e1 e2) (args : List Bytes) :
     cmdExtractUnused e1 args = cmdExtractUnused e2 args := by
   unfold cmdExtractUnused
+  rw [Beeb.FsL.unusedLoop_images e1 e2 h.2.2.2.2.2]
   simp only [h.2.2.1]
   split
   · rfl
@@ -230,6 +233,7 @@ theorem extractUnused_same (e1 e2 : Env) (h : SameDrives e1 e2) (args : List Byt
 theorem extractFiles_same (e1 e2 : Env) (h : SameDrives e1 e2) (args : List Bytes) :
     cmdExtractFiles e1 args = cmdExtractFiles e2 args := by
   unfold cmdExtractFiles
+  rw [Beeb.FsL.extractLoop_images e1 e2 h.2.2.2.2.2]
   simp only [mount_same e1 e2 h, h.2.2.1]
 
 theorem showTitle_same (e1 e2 : Env) (h : SameDrives e1 e2) (d : Nat) :
